@@ -112,6 +112,49 @@ Theorem C03_source_constants :
   [p_nline default_penalties; p_overflow default_penalties; p_frac default_penalties;
    p_short default_penalties; p_hyphen default_penalties].
 Proof. exact src_default_penalties_ok. Qed.
+(* at the level of wrap and fill themselves, reference oracle (found missing by an audit: C03_wrap_level above is about run_alg on an arbitrary word list): for every paragraph k the texts of wrap's lines are rendered from groups that are slices along a chain of minimum arrangement_cost over ALL chains, for that paragraph's fragments and the widths line_widths cw o (k =? 0); fill is the join of those lines.  With an arbitrary partition oracle this is false (WrapLevel.wsl_texts_needs_reference_oracle): the byte-length shortcut returns one line whatever the oracle would say. *)
+From TW Require Import WrapLevel.
+Theorem C03_wrap_level_paragraphs :
+  forall (cw : Chars.char -> BinNums.N) (alnum : Chars.char -> bool)
+           (lbc custom_sp : Chars.str -> list BinNums.N),
+         (forall c : Chars.char, BinNat.N.le (cw c) (Chars.utf8_len c)) ->
+         forall (P : OptFit.penalties) (o : Wrap.options) (text : Chars.str),
+         Pipeline.SplitterOK custom_sp ->
+         Wrap.o_alg o = Wrap.OptimalFit P ->
+         exists (ls : list Wrap.oline) (pls : list (list Wrap.oline)),
+           Wrap.wrap cw alnum lbc custom_sp Wrap.ofit_dp o text = Some ls /\
+           Wrap.fill cw alnum lbc custom_sp Wrap.ofit_dp o text =
+           Some (Chars.join (Wrap.le_str (Wrap.o_le o)) (List.map Wrap.l_text ls)) /\
+           ls = List.concat pls /\
+           length pls = length (Wrap.split_le (Wrap.o_le o) text) /\
+           (forall (k : nat) (p : Chars.str),
+            List.nth_error (Wrap.split_le (Wrap.o_le o) text) k = Some p ->
+            Fits.TrimOK cw alnum lbc custom_sp o (PeanoNat.Nat.eqb k 0) p ->
+            exists (bws : list Word.word) (groups : list (list Word.word)) (pl : list Wrap.oline),
+              List.nth_error pls k = Some pl /\
+              option_map (List.map (Wrap.shift_cow (para_offset o text k)))
+                (Wrap.wrap_single_line cw alnum lbc custom_sp Wrap.ofit_dp o (PeanoNat.Nat.eqb k 0) p) =
+              Some pl /\
+              Pipeline.pipeline_words cw alnum lbc custom_sp o (PeanoNat.Nat.eqb k 0) p = Some bws /\
+              Pipeline.gtext bws = p /\
+              Wrap.run_alg Wrap.ofit_dp (Wrap.OptimalFit P) bws
+                (Pipeline.line_widths cw o (PeanoNat.Nat.eqb k 0)) = Some groups /\
+              List.concat groups = bws /\
+              List.map Wrap.l_text pl = List.map Wrap.l_text (group_lines o (PeanoNat.Nat.eqb k 0) bws groups) /\
+              (bws <> nil ->
+               exists rs : list (nat * nat),
+                 groups = List.map (fun '(a, b) => OptFit.slice bws a b) rs /\
+                 Partition.chain (length bws) 0 rs /\
+                 (forall rs' : list (nat * nat),
+                  Partition.chain (length bws) 0 rs' ->
+                  BinInt.Z.le
+                    (OptFit.arrangement_cost Num.NumZ P (List.map Wrap.word_frag bws)
+                       (List.map BinInt.Z.of_N (Pipeline.line_widths cw o (PeanoNat.Nat.eqb k 0))) rs)
+                    (OptFit.arrangement_cost Num.NumZ P (List.map Wrap.word_frag bws)
+                       (List.map BinInt.Z.of_N (Pipeline.line_widths cw o (PeanoNat.Nat.eqb k 0))) rs')))).
+Proof. exact (@wrap_optimal_fit_groups). Qed.
+
+Print Assumptions C03_wrap_level_paragraphs.
 Print Assumptions C03_source_constants.
 
 Print Assumptions C03_lower_bound.
